@@ -141,6 +141,9 @@ class Vc:
             elif kind == 'sig+':
                 fn.sig_extra.append((text, p, ln))
             elif kind == 'at':
+                bad = ghost_only(text)
+                if bad:
+                    raise VcError("%s:%d hint text is not ghost-only: `%s`" % (p, ln, bad))
                 fn.ats.append(info + (text, p, ln))
             elif kind == 'loop':
                 fn.loops[info[0]] = (info[1], text, p, ln)
@@ -248,6 +251,35 @@ class Vc:
             else:
                 raise VcError("%s:%d unknown directive %r" % (path, ln, word))
         flush()
+
+
+GHOST_STARTS = ('proof', 'let ghost', 'assert', 'broadcast use', 'reveal', 'assume')
+
+
+def ghost_only(text):
+    """R9/R11 lint: spliced hint text may contain ghost statements only (proof blocks, `let ghost`, assertions, broadcast use).
+    Returns the first offending statement or None.  (`assume` is reported separately by the assumption scan.)"""
+    code = '\n'.join(l.split('//')[0] for l in text.split('\n'))
+    depth = 0
+    stmts, cur = [], ''
+    for ch in code:
+        if ch in '([{':
+            depth += 1
+        elif ch in ')]}':
+            depth -= 1
+        cur += ch
+        if depth == 0 and (ch == ';' or ch == '}'):
+            stmts.append(cur.strip())
+            cur = ''
+    if cur.strip():
+        stmts.append(cur.strip())
+    for st in stmts:
+        st2 = st.lstrip(';').strip()
+        if not st2:
+            continue
+        if not st2.startswith(GHOST_STARTS):
+            return st2[:80]
+    return None
 
 
 class Out:
